@@ -2286,9 +2286,10 @@ impl DcpsDomainParticipant {
                                     }
                                 }
                             }
+                            // getTypeDependencies is not served: the request of a remote participant is ignored
                             TypeLookupCall::TypeLookupGetDependenciesHash {
                                 get_type_dependencies: _,
-                            } => todo!(),
+                            } => (),
                         }
                     }
                 }
